@@ -527,3 +527,34 @@ def _hv_connectors(repo, ob, failure):
         if any(abs(got.get(k, 1e9) - v) > 0.002 for k, v in want.items()):
             return {"input": doc, "observed": "%r" % got, "expected": "%r" % want}
     return None
+
+
+@generator("C09.loc.")
+@generator("C09.scalar.")
+def _loc_placement(repo, ob, failure):
+    """'@loc' puts the anchor (top-left by default) at the named location plus dx dy; per-axis and
+    scalar references take the corresponding value of the referenced box"""
+    import re as _re
+    ax, ay, aw, ah = 10.0, 20.0, 30.0, 40.0
+    loc = {"tl": (ax, ay), "t": (ax + aw / 2, ay), "tr": (ax + aw, ay), "r": (ax + aw, ay + ah / 2), "br": (ax + aw, ay + ah),
+           "b": (ax + aw / 2, ay + ah), "bl": (ax, ay + ah), "l": (ax, ay + ah / 2), "c": (ax + aw / 2, ay + ah / 2)}
+    cases = []
+    for k, (px, py) in loc.items():
+        cases.append(('<rect id="b" xy="#a@%s" wh="4 6"/>' % k, {"x": px, "y": py}))
+        cases.append(('<rect id="b" xy="#a@%s 3 -2" wh="4 6"/>' % k, {"x": px + 3, "y": py - 2}))
+        cases.append(('<rect id="b" cxy="#a@%s 1" wh="4 6"/>' % k, {"x": px + 1 - 2, "y": py + 1 - 3}))
+    cases += [('<rect id="b" x="#a@r" y="#a@b" wh="4 6"/>', {"x": ax + aw, "y": ay + ah}),
+              ('<rect id="b" x2="#a" y2="#a" wh="4 6"/>', {"x": ax + aw - 4, "y": ay + ah - 6}),
+              ('<rect id="b" x="#a~x2" y="#a~cy" wh="4 6"/>', {"x": ax + aw, "y": ay + ah / 2}),
+              ('<rect id="b" x="#a~w" y="#a~h 5" wh="4 6"/>', {"x": aw, "y": ah + 5}),
+              ('<rect id="b" xy="0" width="#a" height="#a 50%"/>', {"width": aw, "height": ah / 2})]
+    for el, want in cases:
+        doc = '<svg><rect id="a" xy="%g %g" wh="%g %g"/>%s</svg>' % (ax, ay, aw, ah, el)
+        r = run_svgdx(repo, doc)
+        if r["rc"] != 0:
+            continue
+        m = _re.search(r'<rect id="b"([^>]*)>', r["out"])
+        got = dict((k, float(v)) for k, v in _re.findall(r'\b(x|y|width|height)="([-0-9.]+)"', m.group(1))) if m else {}
+        if any(abs(got.get(k, 1e9) - v) > 0.002 for k, v in want.items()):
+            return {"input": doc, "observed": "%r" % got, "expected": "%r" % want}
+    return None
